@@ -74,7 +74,7 @@ contract(f"{Q}.to_root_units",
          modifies=["contents(self._REGISTRY._cache.dimensionality)", "contents(self._REGISTRY._cache.root_units)",
                    "contents(self._REGISTRY._cache.conversion_factor)", "allof(UnitsContainer._hash)"],
          trusted=True,
-         note="_get_root_units (verified) + _convert_magnitude_not_inplace (assumed) + the Quantity constructor (not modelled)",
+         note="_get_root_units and _convert_magnitude_not_inplace are verified; assumed here: that the root-unit container is itself a well-formed multiplicative container of factor 1, and the Quantity constructor",
          props=["C05", "C03", "C15"])
 
 contract(f"{Q}.dimensionality",
